@@ -123,9 +123,10 @@ T(strnlen_s) { r->rc = -7777; r->o1 = (long)_strnlen_s_chk(DP(c), SZ(c->dmax, ST
 T(wcsnlen_s) { r->rc = -7777; r->o1 = (long)_wcsnlen_s_chk(DP(c), SZ(c->dmax, WSTRMAX), B(c->dbos, 4)); r->has_o1 = 1; }
 #define OUTI int o = -7777; int *op = (c->flags & 1) ? NULL : &o
 #define OUTZ rsize_t o = 7777; rsize_t *op = (c->flags & 1) ? NULL : &o
-#define OUTP char *o = (char *)R.rw; char **op = (c->flags & 1) ? NULL : &o
+static char h_untouched[8];
+#define OUTP char *o = (char *)h_untouched; char **op = (c->flags & 1) ? NULL : &o
 #define FINI r->o1 = (long)o; r->has_o1 = 1
-#define FINP r->ret = ((void *)o == (void *)R.rw) ? -3 : IDX(o, c->na); r->has_ret = 1
+#define FINP r->ret = ((void *)o == (void *)h_untouched) ? -3 : IDX(o, c->na); r->has_ret = 1
 T(strcmp_s) { OUTI; r->rc = _strcmp_s_chk(DP(c), SZ(c->dmax, STRMAX), SP(c), op, B(c->dbos, 1), B(c->sbos, 1)); FINI; }
 T(strcasecmp_s) { OUTI; r->rc = _strcasecmp_s_chk(DP(c), SZ(c->dmax, STRMAX), SP(c), op, B(c->dbos, 1)); FINI; }
 T(strnatcmp_s) { OUTI; r->rc = _strnatcmp_s_chk(DP(c), SZ(c->dmax, STRMAX), SP(c), 0, op, B(c->dbos, 1), B(c->sbos, 1)); FINI; }
@@ -149,7 +150,7 @@ T(strprefix_s) { r->rc = _strprefix_s_chk(DP(c), SZ(c->dmax, STRMAX), SP(c), B(c
 #define BOOLT(name) T(name) { r->rc = -7777; r->o1 = (long)_##name##_chk(DP(c), SZ(c->dmax, STRMAX), B(c->dbos, 1)); r->has_o1 = 1; }
 BOOLT(strisalphanumeric_s) BOOLT(strisascii_s) BOOLT(strisdigit_s) BOOLT(strishex_s)
 BOOLT(strislowercase_s) BOOLT(strismixedcase_s) BOOLT(strispassword_s) BOOLT(strisuppercase_s)
-#define OUTV void *o = (void *)R.rw; void **op = (c->flags & 1) ? NULL : &o
+#define OUTV void *o = (void *)h_untouched; void **op = (c->flags & 1) ? NULL : &o
 T(memchr_s) { OUTV; r->rc = _memchr_s_chk(DP(c), MB(c->dmax, 1), c->c, op, B(c->dbos, 1)); FINP; }
 T(memrchr_s) { OUTV; r->rc = _memrchr_s_chk(DP(c), MB(c->dmax, 1), c->c, op, B(c->dbos, 1)); FINP; }
 T(memcmp_s) { OUTI; r->rc = _memcmp_s_chk(DP(c), MB(c->dmax, 1), SP(c), MN(c->slen, 1), op, B(c->dbos, 1), B(c->sbos, 1)); FINI; }
@@ -158,7 +159,7 @@ T(memcmp32_s) { OUTI; r->rc = _memcmp32_s_chk(DP(c), MN(c->dmax, 4), SP(c), MN(c
 T(wmemcmp_s) { OUTI; r->rc = _wmemcmp_s_chk(DP(c), MN(c->dmax, 4), SP(c), MN(c->slen, 4), op, B(c->dbos, 4), B(c->sbos, 4)); FINI; }
 T(wcscmp_s) { OUTI; r->rc = _wcscmp_s_chk(DP(c), SZ(c->dmax, WSTRMAX), SP(c), SZ(c->slen, WSTRMAX), op, B(c->dbos, 4), B(c->sbos, 4)); FINI; }
 T(wcsncmp_s) { OUTI; r->rc = _wcsncmp_s_chk(DP(c), SZ(c->dmax, WSTRMAX), SP(c), SZ(c->slen, WSTRMAX), SZ(c->n, WSTRMAX), op, B(c->dbos, 4), B(c->sbos, 4)); FINI; }
-T(wcsstr_s) { wchar_t *o = (wchar_t *)R.rw; wchar_t **op = (c->flags & 1) ? NULL : &o;
+T(wcsstr_s) { wchar_t *o = (wchar_t *)h_untouched; wchar_t **op = (c->flags & 1) ? NULL : &o;
     r->rc = _wcsstr_s_chk(DP(c), SZ(c->dmax, WSTRMAX), SP(c), SZ(c->slen, WSTRMAX), op, B(c->dbos, 4), B(c->sbos, 4)); FINP; }
 T(timingsafe_bcmp) { r->rc = -7777; r->o1 = _timingsafe_bcmp_chk(DP(c), SP(c), (size_t)c->n, B(c->dbos, 1), B(c->sbos, 1)); r->has_o1 = 1; }
 T(timingsafe_memcmp) { r->rc = -7777; r->o1 = _timingsafe_memcmp_chk(DP(c), SP(c), (size_t)c->n, B(c->dbos, 1), B(c->sbos, 1)); r->has_o1 = 1; }
